@@ -423,6 +423,9 @@ class PartialFactory:
             class Config:
                 frozen = True  # make sure it's hashable
 
+        # connect to original model and this class (like any other partial)
+        PartialBaseModel.__partial_src__ = cls.base_model
+        PartialBaseModel.__partial_fac__ = cls
         return PartialBaseModel
 
     @classmethod
